@@ -218,7 +218,7 @@ class PCAVectorModel(MeanLinearVectorModel):
         )
 
         # check value
-        if isinstance(value, float):
+        if isinstance(value, (float, np.floating)):
             if 0.0 < value <= self._total_variance_ratio():
                 # value needed to capture desired variance. The guard above
                 # guarantees that all the kept components reach the requested
